@@ -568,10 +568,28 @@ pub fn rel_density(s: &St) -> f64 {
     }
 }
 
-/// signature of KF_GAS_PAIR: every phase of the result is a dilute gas (rho < 1e-3 rho_max(x));
-/// a genuine liquid has rho > 0.2 rho_max
+/// signature of KF_GAS_PAIR, variant 1: every phase of the result is a dilute gas
+/// (rho < 1e-3 rho_max(x)); a genuine liquid has rho > 0.2 rho_max
 pub fn all_dilute(phases: &[&St]) -> bool {
     phases.iter().all(|s| rel_density(s) < 1e-3)
+}
+
+/// signature of KF_GAS_PAIR, variant 2: the phases have identical compositions (max|dx| <= 1e-12,
+/// i.e. K = 1) and one of them is a dilute gas (rho < 1e-3 rho_max) at a vanishing reduced pressure
+/// (|p| < 1e-30, 40 orders below any dew pressure of the domain) while another one is not: the
+/// iteration pressure has become 0 or NaN and `density_iteration` handed back an arbitrary state for
+/// the other phase. (An azeotropic bubble point also has equal compositions, but no such phase.)
+pub fn collapsed_phase(phases: &[&St]) -> bool {
+    let same_x = phases
+        .iter()
+        .skip(1)
+        .all(|s| (&s.molefracs - &phases[0].molefracs).mapv(f64::abs).fold(0.0, |m: f64, v| m.max(*v)) <= 1e-12);
+    same_x && phases.iter().any(|s| rel_density(s) < 1e-3 && pressure_red(s).abs() < 1e-30) && !all_dilute(phases)
+}
+
+/// either variant of the KF_GAS_PAIR signature
+pub fn zero_pressure_result(phases: &[&St]) -> bool {
+    all_dilute(phases) || collapsed_phase(phases)
 }
 
 /// Conditions every returned set of coexisting phases must satisfy. `tag` labels messages and
@@ -610,6 +628,21 @@ fn check_phases_inner(obs: &mut Obs, tag: &str, kind: Kind, phases: &[&St], tol:
                 pressure_red(phases[1]),
                 rel_density(phases[0]),
                 rel_density(phases[1])
+            ),
+        );
+        return false;
+    }
+    if kind == Kind::BubbleDew && collapsed_phase(phases) {
+        obs.class("known signature: collapsed zero-pressure phase beside a dense phase of the same composition");
+        obs.known_or_fail(
+            KF_GAS_PAIR,
+            format!(
+                "{tag}: returned Ok with identical compositions and one phase collapsed to zero pressure: p = {:e} / {:e} (reduced), rho/rho_max = {:e} / {:e}, x = {:?}",
+                pressure_red(phases[0]),
+                pressure_red(phases[1]),
+                rel_density(phases[0]),
+                rel_density(phases[1]),
+                phases[0].molefracs.to_vec()
             ),
         );
         return false;
